@@ -39,6 +39,9 @@ impl TableRefresh {
         socket: &Socket,
         timer: &mut Timer<ScheduledTaskCheck>,
     ) {
+        #[cfg(btdht_verif)]
+        crate::verif::count_refresh_round(socket.local_addr());
+
         if self.curr_refresh_bucket == table::MAX_BUCKETS {
             self.curr_refresh_bucket = 0;
         }
